@@ -45,10 +45,56 @@ impl Toolchain {
 		let lock_api = newest(&deps, "liblock_api-", ".rlib").ok_or("no liblock_api rlib")?;
 		let work = crate::runner::verif_root().join("work").join(format!("types-{}", std::process::id()));
 		std::fs::create_dir_all(&work).map_err(|e| e.to_string())?;
-		Ok(Toolchain { rlib, deps, lock_api, work })
+		let tc = Toolchain { rlib, deps, lock_api, work };
+		tc.load_disk_cache();
+		Ok(tc)
 	}
 	pub fn cleanup(&self) {
+		self.store_disk_cache();
 		let _ = std::fs::remove_dir_all(&self.work);
+	}
+
+	/// Verdicts are a function of (program text, the rlib of the tree under
+	/// test, the compiler): they are kept on disk per rlib content, so that the
+	/// checks of different properties do not compile the same program again.
+	fn cache_file(&self) -> Option<PathBuf> {
+		let bytes = std::fs::read(&self.rlib).ok()?;
+		let mut h = std::collections::hash_map::DefaultHasher::new();
+		use std::hash::Hasher;
+		h.write(&bytes);
+		let dir = crate::runner::verif_root().join("work").join("types-cache");
+		std::fs::create_dir_all(&dir).ok()?;
+		Some(dir.join(format!("{:016x}.json", h.finish())))
+	}
+	fn load_disk_cache(&self) {
+		if std::env::var_os("HLV_NO_TYPES_CACHE").is_some() {
+			return;
+		}
+		let Some(f) = self.cache_file() else { return };
+		let Ok(txt) = std::fs::read_to_string(&f) else { return };
+		let Ok(m) = serde_json::from_str::<HashMap<String, Verdict>>(&txt) else { return };
+		let mut g = CACHE.lock().unwrap();
+		let c = g.get_or_insert_with(HashMap::new);
+		for (k, v) in m {
+			if let Ok(k) = u64::from_str_radix(&k, 16) {
+				if v.tool_failure.is_none() {
+					c.entry(k).or_insert(v);
+				}
+			}
+		}
+	}
+	fn store_disk_cache(&self) {
+		if std::env::var_os("HLV_NO_TYPES_CACHE").is_some() {
+			return;
+		}
+		let Some(f) = self.cache_file() else { return };
+		let g = CACHE.lock().unwrap();
+		let Some(c) = g.as_ref() else { return };
+		let m: HashMap<String, &Verdict> = c.iter().filter(|(_, v)| v.tool_failure.is_none()).map(|(k, v)| (format!("{k:016x}"), v)).collect();
+		let tmp = f.with_extension(format!("tmp{}", std::process::id()));
+		if std::fs::write(&tmp, serde_json::to_string(&m).unwrap_or_default()).is_ok() {
+			let _ = std::fs::rename(&tmp, &f);
+		}
 	}
 }
 
